@@ -25,6 +25,7 @@ type replayer struct {
 	id   string
 	bins map[string]string // pkg dir -> test binary ("" = build failed)
 	errs map[string]string
+	modelReplay func(rr *replayRec) (bool, string)
 }
 
 func newReplayer(m *Mirror, id string) *replayer {
@@ -135,6 +136,11 @@ func (r *replayer) build(dir string) (string, string) {
 
 // run replays one counterexample; ok = the failure reproduced natively.
 func (r *replayer) run(rr *replayRec, path string) (bool, string) {
+	if r.modelReplay != nil {
+		if ok, out := r.modelReplay(rr); out != "" {
+			return ok, out
+		}
+	}
 	bin, errs := r.build(rr.PkgDir)
 	if bin == "" {
 		return false, errs
